@@ -16,7 +16,7 @@ func init() {
 		DoesNotCover: "Interleavings of concurrent committers are not explored (the version checks they rely on are C02/C37); correctness of the binary search and of the comparer (C29/C30) is assumed.",
 	}, runC05)
 	register("C06", propMeta{
-		Explanation:  "Decides the bookkeeping pairing behind the store count: (R1) in Btree.Add and Btree.AddItem StoreInfo.Count++ executes on exactly the paths that return (true, nil); in Btree.RemoveCurrentItem Count-- executes exactly once on every path on which a removal primitive succeeded and that does not return an error, and on no other path; no other function of package btree writes Count; (R2) the committed delta is Count minus the count seen at open (getCommitStoresInfo), the rollback delta is the same operands swapped (getRollbackStoresInfo), and fs.StoreRepository.Update adds the caller's delta to the freshly read count of the same store under the store lock (shared with C13.R3); (R3) the refetch-and-merge closure resets both StoreInfo.Count and the count-at-open baseline from the same freshly read store record before replaying, and the only other writer of the baseline is the constructor; (R4) rollback applies the reverse delta only when the commit had passed the commitStoreInfo step and never to stores this transaction created. (R5) positional pairing of rollback store infos and backends; (R6) in fs.StoreRepository.Update and its undo closure the record put into the cache after a write is the record that was written; (R7) the count delta a dead transaction's log replay must subtract is carried by an encoded field of the log record (StoreInfo.CountDelta itself is excluded from JSON).",
+		Explanation:  "Decides the bookkeeping pairing behind the store count: (R1) in Btree.Add and Btree.AddItem StoreInfo.Count++ executes on exactly the paths that return (true, nil); in Btree.RemoveCurrentItem Count-- executes exactly once on every path on which a removal primitive succeeded and that does not return an error, and on no other path; no other function of package btree writes Count; (R2) the committed delta is Count minus the count seen at open (getCommitStoresInfo), the rollback delta is the same operands swapped (getRollbackStoresInfo), and fs.StoreRepository.Update adds the caller's delta to the freshly read count of the same store under the store lock (shared with C13.R3); (R3) the refetch-and-merge closure resets both StoreInfo.Count and the count-at-open baseline from the same freshly read store record before replaying, and the only other writer of the baseline is the constructor; (R4) rollback applies the reverse delta only when the commit had passed the commitStoreInfo step and never to stores this transaction created. (R5) positional pairing of rollback store infos and backends; (R6) in fs.StoreRepository.Update and its undo closure the record put into the cache after a write is the record that was written; (R7) the count delta a dead transaction's log replay must subtract is carried by an encoded field of the log record (StoreInfo.CountDelta itself is excluded from JSON). (R8) the window between writing the store counts and logging the next step must be covered by recovery (known finding F36).",
 		DoesNotCover: "The arithmetic outcome of concurrent merges and the Cassandra StoreRepository sibling are not decided; that every structural operation keeps the number of occupied slots equal to Count is C17's (undecided) territory.",
 	}, runC06)
 }
